@@ -137,6 +137,10 @@ impl DeweyVersion {
                 version.push(-2);
                 idx += 4;
                 continue;
+            } else if slice.starts_with("pre") {
+                version.push(-1);
+                idx += 3;
+                continue;
             } else if slice.starts_with("rc") {
                 version.push(-1);
                 idx += 2;
